@@ -5,24 +5,174 @@ import (
 	"go/types"
 )
 
-// RG: rely/guarantee mode for the hand-off protocol (filled in later).
+// Rely/guarantee mode for the block hand-off protocol (DESIGN 2.10).
+//
+// The shared location p = *counter is written by several tasks; the task
+// under verification has identifier id. Every task promises the guarantee
+//     G(p, p'):  p' == -1  ||  (p == id-1 && p' == id)
+// and may rely on the other tasks (ids j != id, j >= 1) keeping theirs.
+// The symbolic executor keeps three facts that are stable under the rely
+// (lemmas rg_stable_* in contracts/io.contracts, proved by SMT):
+//     hold : p was observed equal to id-1 and the task has not written since
+//            ==> p is id-1 or -1 until the task writes
+//     pub  : the task moved p from id-1 to id  ==>  p >= id or p == -1 forever
+//     done : the task has done what lets its successor leave the wait loop
+//            (stored -1, observed -1, or attempted the id-1 -> id move)
+// The value returned by an atomic load is arbitrary subject to these facts.
+// Obligations: #guarantee at every atomic write, #access at every call on the
+// shared stream (requires hold && !pub), #exit (done) at every normal exit.
 type RG struct {
-	ex *Exec
-	fc *FuncContract
+	ex      *Exec
+	fc      *FuncContract
+	counter Term // pointer term
+	id      Term
+	shared  Term // interface value of the shared stream
+	ready   bool
+	nG, nA  int
 }
 
 func newRG(ex *Exec, fc *FuncContract) *RG { return &RG{ex: ex, fc: fc} }
 
+// init evaluates the three designators in the entry state.
+func (rg *RG) init(top *Frame, st *State) {
+	ex := rg.ex
+	eval := func(key string) (Term, bool) {
+		src := rg.fc.Opts[key]
+		if src == "" {
+			ex.cx.unsup("rg: missing opt %s", key)
+			return Term{}, false
+		}
+		e, err := parseExpr(src)
+		if err != nil {
+			ex.cx.unsup("rg: %v", err)
+			return Term{}, false
+		}
+		env := ex.specEnv(top, st, st)
+		v := env.eval(e)
+		sc, ok := v.V.(Sc)
+		if !ok {
+			ex.cx.unsup("rg: %s is not a scalar", src)
+			return Term{}, false
+		}
+		return sc.T, true
+	}
+	var ok1, ok2, ok3 bool
+	rg.counter, ok1 = eval("rg-counter")
+	rg.id, ok2 = eval("rg-id")
+	rg.shared, ok3 = eval("rg-shared")
+	rg.ready = ok1 && ok2 && ok3
+	st.vars["rg_hold"] = tFalse
+	st.vars["rg_pub"] = tFalse
+	st.vars["rg_done"] = tFalse
+	st.vars["rg_canc"] = tFalse
+	ex.cx.assume(app(SBool, ">=", rg.id, intLit(1)))
+}
+
+func (rg *RG) flag(st *State, name string) Term {
+	if t, ok := st.vars[name]; ok {
+		return t
+	}
+	return tFalse
+}
+
+func (rg *RG) isCounter(addr Val) bool {
+	if !rg.ready {
+		return false
+	}
+	t, ok := rg.ex.materialize(addr)
+	return ok && t.S == rg.counter.S
+}
+
 func (rg *RG) atomicLoad(fr *Frame, st *State, addr Val, et types.Type, p token.Pos) Val {
-	return rg.ex.load(st, addr, et)
+	ex := rg.ex
+	if !rg.isCounter(addr) {
+		return ex.load(st, addr, et)
+	}
+	v := ex.cx.fresh("rg_load", SInt)
+	ex.assumeWellTyped(v, et, tTrue)
+	hold, pub := rg.flag(st, "rg_hold"), rg.flag(st, "rg_pub")
+	idm1 := app(SInt, "-", rg.id, intLit(1))
+	ex.cx.assume(implies(and(st.reach, hold, not(pub)), or(eq(v, idm1), eq(v, intLit(-1)))))
+	ex.cx.assume(implies(and(st.reach, pub), or(app(SBool, ">=", v, rg.id), eq(v, intLit(-1)))))
+	// the cancel value is sticky (stable fact "cancelled")
+	ex.cx.assume(implies(and(st.reach, rg.flag(st, "rg_canc")), eq(v, intLit(-1))))
+	st.vars["rg_canc"] = ex.cx.name("canc", or(rg.flag(st, "rg_canc"), eq(v, intLit(-1))))
+	st.vars["rg_hold"] = ex.cx.name("hold", or(hold, and(not(pub), eq(v, idm1))))
+	st.vars["rg_done"] = ex.cx.name("done", or(rg.flag(st, "rg_done"), eq(v, intLit(-1))))
+	return Sc{v}
 }
+
+func (rg *RG) guarantee(st *State, goal Term, p token.Pos) {
+	ex := rg.ex
+	rg.nG++
+	o := ex.cx.oblige("guarantee", "", st.reach, goal, ex.pos(p), nil)
+	o.Name = ex.cx.fnName + "#guarantee@" + itoa(rg.nG)
+}
+
 func (rg *RG) atomicStore(fr *Frame, st *State, addr, v Val, et types.Type, p token.Pos) {
-	rg.ex.store(st, addr, v, et)
+	ex := rg.ex
+	if !rg.isCounter(addr) {
+		ex.store(st, addr, v, et)
+		return
+	}
+	x := v.(Sc).T
+	// a plain store cannot know that p is still id-1: only the cancel value is allowed
+	rg.guarantee(st, eq(x, intLit(-1)), p)
+	st.vars["rg_done"] = ex.cx.name("done", or(rg.flag(st, "rg_done"), eq(x, intLit(-1)), eq(x, rg.id)))
+	st.vars["rg_canc"] = ex.cx.name("canc", or(rg.flag(st, "rg_canc"), eq(x, intLit(-1))))
+	st.vars["rg_pub"] = ex.cx.name("pub", or(rg.flag(st, "rg_pub"), eq(x, rg.id)))
 }
+
 func (rg *RG) atomicCAS(fr *Frame, st *State, addr, old, nw Val, et types.Type, p token.Pos) Val {
 	ex := rg.ex
-	cur := ex.load(st, addr, et).(Sc).T
-	okT := ex.cx.name("cas", eq(cur, old.(Sc).T))
-	ex.store(st, addr, Sc{ite(okT, nw.(Sc).T, cur)}, et)
+	if !rg.isCounter(addr) {
+		cur := ex.load(st, addr, et).(Sc).T
+		okT := ex.cx.name("cas", eq(cur, old.(Sc).T))
+		ex.store(st, addr, Sc{ite(okT, nw.(Sc).T, cur)}, et)
+		return Sc{okT}
+	}
+	o, n := old.(Sc).T, nw.(Sc).T
+	idm1 := app(SInt, "-", rg.id, intLit(1))
+	rg.guarantee(st, or(eq(n, intLit(-1)), and(eq(o, idm1), eq(n, rg.id))), p)
+	okT := ex.cx.fresh("rg_cas", SBool)
+	hold, pub := rg.flag(st, "rg_hold"), rg.flag(st, "rg_pub")
+	// a failed CAS from id-1 while holding means p == -1 (cancelled)
+	moved := and(okT, eq(o, idm1), eq(n, rg.id))
+	st.vars["rg_pub"] = ex.cx.name("pub", or(pub, moved))
+	st.vars["rg_canc"] = ex.cx.name("canc", or(rg.flag(st, "rg_canc"), and(not(okT), hold, not(pub), eq(o, idm1)), and(okT, eq(n, intLit(-1)))))
+	st.vars["rg_done"] = ex.cx.name("done", or(rg.flag(st, "rg_done"), moved, and(not(okT), hold, eq(o, idm1)), and(okT, eq(n, intLit(-1)))))
 	return Sc{okT}
+}
+
+// access: a call on the shared stream.
+func (rg *RG) access(st *State, recv Term, what string, p token.Pos) {
+	if !rg.ready || recv.S != rg.shared.S {
+		return
+	}
+	ex := rg.ex
+	rg.nA++
+	goal := and(rg.flag(st, "rg_hold"), not(rg.flag(st, "rg_pub")))
+	o := ex.cx.oblige("access", what, st.reach, goal, ex.pos(p), nil)
+	o.Name = ex.cx.fnName + "#access:" + what + "@" + itoa(rg.nA)
+}
+
+func (rg *RG) exit(st *State, p token.Pos) {
+	if !rg.ready {
+		return
+	}
+	ex := rg.ex
+	o := ex.cx.oblige("exit", "", st.reach, rg.flag(st, "rg_done"), ex.pos(p), nil)
+	o.Name = ex.cx.fnName + "#exit:successor-can-proceed"
+}
+
+func itoa(n int) string {
+	if n == 0 {
+		return "0"
+	}
+	s := ""
+	for n > 0 {
+		s = string(rune('0'+n%10)) + s
+		n /= 10
+	}
+	return s
 }
